@@ -267,3 +267,89 @@ Theorem C11_spin_refuted :
   exists script, no_adjacent_loads (watch_run watch_step_spinning false None script) = false.
 Proof. exact watch_spinning_refuted. Qed.
 Print Assumptions C11_spin_refuted.
+
+(* ===== unusable material inside an otherwise good snapshot ===== *)
+
+(* The converse of C11_load_error: ONE certificate, key or combined file of a snapshot whose
+   pair cannot be made - its other half is missing, a block is empty or holds no parsable
+   certificate / key, the key is another certificate's - fails the load as a whole.  The
+   snapshot is never loaded as the smaller set of the pairs that can still be made. *)
+Theorem C11_unusable_entry_fails_load : forall m name cf kf,
+  In name (map fst m) -> classify name = Some (cf, kf) -> key_pair m cf kf = None ->
+  snd (load_files m) = true.
+Proof. exact unusable_entry_fails_load. Qed.
+Print Assumptions C11_unusable_entry_fails_load.
+(* a block that holds no certificate where one is expected (an empty or whitespace-only file,
+   a file that is being rewritten), or no private key where one is expected, is such an entry *)
+Theorem C11_block_without_cert_is_unusable : forall m cf kf f,
+  blocks_find m cf = Some f -> f_cert f = None -> key_pair m cf kf = None.
+Proof. exact no_cert_no_pair. Qed.
+Print Assumptions C11_block_without_cert_is_unusable.
+Theorem C11_block_without_key_is_unusable : forall m cf kf f,
+  blocks_find m kf = Some f -> f_key f = None -> key_pair m cf kf = None.
+Proof. exact no_key_no_pair. Qed.
+Print Assumptions C11_block_without_key_is_unusable.
+(* so, after every history, such a snapshot leaves the working set where it is, and the
+   handshake after it is answered from the certificates of the last usable load before it -
+   the certificate of the damaged pair included *)
+Theorem C11_unusable_entry_keeps_working_set : forall cur script m name cf kf,
+  In name (map fst m) -> classify name = Some (cf, kf) -> key_pair m cf kf = None ->
+  last_good cur (script ++ [Loaded (Some m)]) = last_good cur script.
+Proof. exact unusable_entry_keeps_set. Qed.
+Print Assumptions C11_unusable_entry_keeps_working_set.
+Theorem C11_handshake_after_unusable_entry : forall script m name cf kf n s,
+  In name (map fst m) -> classify name = Some (cf, kf) -> key_pair m cf kf = None ->
+  nth (length script) (run_store [] (e2e_actions watch_step false None (script ++ [Loaded (Some m)]) n s)) PNone
+  = store_pick (last_good [] script) n s.
+Proof. exact unusable_entry_handshake. Qed.
+Print Assumptions C11_handshake_after_unusable_entry.
+Theorem C11_unusable_entry_nonvacuous :
+  In (bs "b-key.pem") (map fst ab_key_emptied) /\
+  classify (bs "b-key.pem") = Some (bs "b-cert.pem", bs "b-key.pem") /\
+  key_pair ab_key_emptied (bs "b-cert.pem") (bs "b-key.pem") = None /\
+  load_certificates ab_key_emptied = ([[bs "a.example"]], true) /\
+  run_store [] (e2e_actions watch_step false None
+                  [Loaded (Some good_ab); Loaded (Some ab_key_emptied); Loaded (Some ab_key_emptied); Loaded (Some good_ab)]
+                  (bs "b.example") true)
+  = [PCert 1; PCert 1; PCert 1; PCert 1].
+Proof. exact unusable_entry_example. Qed.
+Print Assumptions C11_unusable_entry_nonvacuous.
+
+(* ===== what is presented is the whole certificate of the current set ===== *)
+
+(* A certificate of a set = the names of its leaf + the identity of the leaf + the identity
+   of the rest of the tls.Certificate value (intermediate chain, OCSP staple, SCTs).  For
+   every schedule of set publications and handshakes: the handshakes that follow a
+   publication (up to the next one) are answered from exactly the set published - whatever
+   the store held before and whatever the two sets have in common (the same leaves with
+   another chain, say) ... *)
+Theorem C11_handshake_after_publication : forall pre cur set mid n s post,
+  Forall is_handshake mid ->
+  run_mstore cur (pre ++ MPublish set :: mid ++ MHandshake n s :: post) =
+  run_mstore cur pre ++ run_mstore set mid ++ present_on set n s :: run_mstore set post.
+Proof. exact handshake_after_publication. Qed.
+Print Assumptions C11_handshake_after_publication.
+(* ... with the element of that set, complete, that stands at the position the name-level
+   theorems (C11_get_cert_spec, C11_presents) are about *)
+Theorem C11_presented_member : forall set n s i c,
+  present_on set n s = RCert i c -> nth_error set i = Some c /\ store_pick (names_of set) n s = PCert i.
+Proof. exact present_on_member. Qed.
+Print Assumptions C11_presented_member.
+Theorem C11_presented_inside : forall set n s i, present_on set n s <> ROutside i.
+Proof. exact present_on_inside. Qed.
+Print Assumptions C11_presented_inside.
+(* the store of the name-level theorems is the projection of this one *)
+Theorem C11_material_store_projects : forall sched cur,
+  map pick_of (run_mstore cur sched) = run_store (names_of cur) (map strip_material sched).
+Proof. exact run_mstore_projects. Qed.
+Print Assumptions C11_material_store_projects.
+Theorem C11_republished_chain_example :
+  run_mstore [] [MHandshake (bs "shop.test") true;
+                 MPublish [api_cert; shop_old]; MHandshake (bs "shop.test") true;
+                 MPublish [api_cert; shop_new]; MHandshake (bs "Shop.test.") true; MHandshake (bs "x.test") true;
+                 MHandshake (bs "x.test") false]
+  = [RErrNoCerts; RCert 1 shop_old; RCert 1 shop_new; RNone; RCert 0 api_cert]
+  /\ Forall is_handshake [MHandshake (bs "x.test") true]
+  /\ fc_leaf shop_old = fc_leaf shop_new /\ fc_rest shop_old <> fc_rest shop_new.
+Proof. exact republished_chain_example. Qed.
+Print Assumptions C11_republished_chain_example.
